@@ -28,8 +28,8 @@ REQUIRED = ["field_" + n for n in rc.FIELDS] + ["cap17_redecode_after_caller_edi
 def mk(ctx, mb, df=None):
     rng = ctx.rng
     f = bits.commb_frame(df or rng.choice((20, 21)), rng.fill(27), mb, rng.fill(24))
-    hx = "%028X" % f
-    return (hx.lower() if rng.random() < 0.1 else hx), f
+    hx = bits.anypi(rng, "%028X" % f)   # header / AP of the previous reply now and then: the field decoders read MB only
+    return (hx.lower() if rng.random() < 0.1 else hx), int(hx, 16)
 
 
 def fn_of(name):
